@@ -267,12 +267,19 @@ class Folder:
                 raise Unfoldable(str(e))
         if isinstance(expr, ast.UnaryOp) and type(expr.op) in _UN:
             return _UN[type(expr.op)](self.fold(expr.operand, scope))
-        if isinstance(expr, ast.Tuple):
-            return tuple(self.fold(e, scope) for e in expr.elts)
-        if isinstance(expr, ast.List):
-            return [self.fold(e, scope) for e in expr.elts]
-        if isinstance(expr, ast.Set):
-            return frozenset(self.fold(e, scope) for e in expr.elts)
+        if isinstance(expr, (ast.Tuple, ast.List, ast.Set)):
+            items = []
+            for e in expr.elts:
+                if isinstance(e, ast.Starred):
+                    v = self.fold(e.value, scope)
+                    if not isinstance(v, (list, tuple, range, frozenset, bytes, str, dict)):
+                        raise Unfoldable("starred value is not a sequence")
+                    items.extend(v)
+                else:
+                    items.append(self.fold(e, scope))
+            if isinstance(expr, ast.Tuple):
+                return tuple(items)
+            return items if isinstance(expr, ast.List) else frozenset(items)
         if isinstance(expr, ast.Dict):
             out = {}
             for k, v in zip(expr.keys, expr.values):
